@@ -109,6 +109,18 @@ Section SigAlg.
     | _ => ag_verify n (ag_feed bs (ag_new (length items) bs) 0 items)
     end.
 
+  (* what Verify() returns in Go: None = panic, Some (ok, err <> nil). The comparison failing yields
+     (false, error); both callers (chain.VerifyTickets, miner ValidateTransactions) look at err ONLY. *)
+  Definition ag_go_result (v : ag_verdict) : option (bool * bool) :=
+    match v with
+    | AgAccept => Some (true, false)
+    | AgReject => Some (false, true)
+    | AgPanic => None
+    end.
+
+  Definition ag_caller_accepts (r : option (bool * bool)) : bool :=
+    match r with Some (_, false) => true | _ => false end.
+
   Definition ag_item_valid (n : nat) (it : ag_item) : bool :=
     bls_verify n (ai_key it) (ai_msg it) (ai_sig it).
 
